@@ -48,7 +48,6 @@ Record Inv1 (s : state) : Prop := {
   i_qrev : forall ev t, In (ev, t) (s_queue s) -> e_rev ev <= s_committed s \/ s_seq s = SeqMid ev;
   i_qincr : incr (qrevs s);
   i_qunc : forall ev t, In (ev, t) (s_queue s) -> e_valid ev = false /\ e_unc ev = true;
-  i_mid : forall ev, s_seq s = SeqMid ev -> exists t, In (ev, t) (s_queue s);
   i_rhead : forall n, retry_node (s_retry s) = Some n -> exists t rest, s_queue s = (n, t) :: rest;
   i_compact : forall t th cur, get_thread t (s_threads s) = Some th -> t_pc th = PCompact2 cur -> cur <= s_committed s
 }.
@@ -204,7 +203,7 @@ Lemma inv1_thread s s' t th th' :
   Inv1 (set_threads s' (set_thread t th' (s_threads s'))).
 Proof.
   intros I G Hc Hq Hr Hqu Ht Eff Hcomp.
-  destruct I as [Icd Ithr Iuniq Iretry Islot Iseq Icover Iqrev Iqincr Iqunc Imid Irhead Icompact].
+  destruct I as [Icd Ithr Iuniq Iretry Islot Iseq Icover Iqrev Iqincr Iqunc Irhead Icompact].
   destruct Eff as [Hd Hs Hp Hn | Hd Hs Hp Hp' Hst | c eo ev Ep Ep' Hev Hd Hs Hst].
   - (* no allocation, no slot *)
     constructor; cbn [s_committed s_dealt s_slots s_seq s_queue s_retry s_threads set_threads]; unfold qrevs;
@@ -288,4 +287,270 @@ Proof.
     + intros t0 th0 cur G0 P0. gs G0.
       * injection G0 as <-. rewrite Ep' in P0. discriminate.
       * apply (Icompact t0 th0 cur G0 P0).
+Qed.
+
+Lemma incr_app l x : incr l -> (forall a, In a l -> a < x) -> incr (l ++ [x]).
+Proof.
+  induction l as [|a l IH]; simpl; intros H Hx.
+  - split; [intros b []|exact I].
+  - destruct H as [H1 H2]. split.
+    + intros b Hb. apply in_app_or in Hb as [Hb|[<-|[]]]; [apply H1; exact Hb|apply Hx; left; reflexivity].
+    + apply IH; [exact H2|]. intros b Hb. apply Hx. right. exact Hb.
+Qed.
+
+Lemma inv1_invoke s t op : Inv1 s -> Inv1 (step s (LInvoke t op)).
+Proof.
+  intros I. unfold step, step_gen. destruct (get_thread t (s_threads s)) eqn:G; [exact I|].
+  destruct I as [Icd Ithr Iuniq Iretry Islot Iseq Icover Iqrev Iqincr Iqunc Irhead Icompact].
+  constructor; cbn [s_committed s_dealt s_slots s_seq s_queue s_retry s_threads set_threads]; unfold qrevs;
+    cbn [s_queue set_threads]; try assumption.
+  - intros t0 th0 r G0 P0. gs G0; [injection G0 as <-; discriminate|]. apply (Ithr t0 th0 r G0 P0).
+  - intros t1 t2 th1 th2 r G1 G2 P1 P2. gs G1; gs G2; try reflexivity.
+    + injection G1 as <-; discriminate.
+    + injection G2 as <-; discriminate.
+    + apply (Iuniq t1 t2 th1 th2 r G1 G2 P1 P2).
+  - intros r Hr. apply located_frame with (s := s); try reflexivity; [|apply Icover; exact Hr].
+    intros r1 [t0 [th0 [G0 P0]]]. exists t0, th0. cbn [s_threads set_threads].
+    rewrite get_set_other; [auto|]. intros ->. congruence.
+  - intros t0 th0 cur G0 P0. gs G0; [injection G0 as <-; discriminate|]. apply (Icompact t0 th0 cur G0 P0).
+Qed.
+
+Lemma inv1_tick s d : Inv1 s -> Inv1 (step s (LTick d)).
+Proof. intros I. destruct I. constructor; assumption. Qed.
+
+Lemma thread_holds_frame s S : s_threads S = s_threads s -> forall r, thread_holds s r -> thread_holds S r.
+Proof. intros H r [t [th [G P]]]. exists t, th. rewrite H. auto. Qed.
+
+Lemma inv1_seq s : Inv1 s -> Inv1 (step s LSeq).
+Proof.
+  intros I. unfold step, step_gen, seq_step.
+  destruct I as [Icd Ithr Iuniq Iretry Islot Iseq Icover Iqrev Iqincr Iqunc Irhead Icompact].
+  destruct (s_seq s) as [|ev|ev] eqn:Q.
+  - destruct (s_slots s (s_committed s + 1)) as [ev|] eqn:SL; [|constructor; rewrite ?Q; assumption].
+    destruct (Islot _ _ SL) as [Hrev Hb].
+    assert (NotSlot : forall r, s_slots s r = None -> r <> s_committed s + 1) by (intros r H ->; congruence).
+    destruct (e_valid ev) eqn:V; [|destruct (e_unc ev) eqn:U].
+    + (* valid: commit and publish *)
+      constructor; cbn [s_committed s_dealt s_slots s_seq s_queue s_retry s_threads set_threads set_events set_committed set_slots];
+        unfold qrevs; cbn [s_queue set_events set_committed set_slots]; rewrite ?Q, ?Hrev; try assumption; try lia.
+      * intros t th r G P. destruct (Ithr t th r G P) as [? [? [? ?]]]. specialize (NotSlot r H0).
+        split; [lia|]. split; [rewrite slot_set_other by exact NotSlot; assumption|]. split; [assumption|]. intros ev0 E. discriminate.
+      * intros r E. destruct (Iretry r E) as [? [? ?]]. specialize (NotSlot r H0).
+        split; [lia|]. split; [rewrite slot_set_other by exact NotSlot; assumption|]. intros ev0 E0. discriminate.
+      * intros r ev0 E. destruct (N.eq_dec r (s_committed s + 1)) as [->|Ne]; [rewrite slot_set_same in E; discriminate|].
+        rewrite slot_set_other in E by exact Ne. destruct (Islot r ev0 E). split; [assumption|lia].
+      * discriminate.
+      * intros r Hr. assert (Ne : r <> s_committed s + 1) by lia.
+        destruct (Icover r) as [H|[H|[H|[ev0 [H _]]]]]; [lia|left|right; left|right; right; left|try rewrite Q in H; discriminate].
+        -- apply thread_holds_frame with (s := s); [reflexivity|exact H].
+        -- exact H.
+        -- cbn [s_slots set_events set_committed set_slots]. rewrite slot_set_other by exact Ne. exact H.
+      * intros ev0 t H. left. destruct (Iqrev ev0 t H) as [H1|H1]; [lia|try rewrite Q in H1; discriminate].
+      * intros t th cur G P. specialize (Icompact t th cur G P). lia.
+    + (* invalid, outcome unknown: hold *)
+      constructor; cbn [s_committed s_dealt s_slots s_seq s_queue s_retry s_threads set_seq set_slots];
+        unfold qrevs; cbn [s_queue set_seq set_slots]; try assumption.
+      * intros t th r G P. destruct (Ithr t th r G P) as [? [? [? ?]]]. specialize (NotSlot r H0).
+        split; [assumption|]. split; [rewrite slot_set_other by exact NotSlot; assumption|]. split; [assumption|].
+        intros ev0 E. injection E as <-. congruence.
+      * intros r E. destruct (Iretry r E) as [? [? ?]]. specialize (NotSlot r H0).
+        split; [assumption|]. split; [rewrite slot_set_other by exact NotSlot; assumption|]. intros ev0 E0. injection E0 as <-. congruence.
+      * intros r ev0 E. destruct (N.eq_dec r (s_committed s + 1)) as [->|Ne]; [rewrite slot_set_same in E; discriminate|].
+        rewrite slot_set_other in E by exact Ne. apply (Islot r ev0 E).
+      * intros ev0 E. injection E as <-. rewrite Hrev. split; [reflexivity|]. split; [lia|]. split; [apply slot_set_same|]. auto.
+      * intros r Hr. destruct (N.eq_dec r (s_committed s + 1)) as [->|Ne].
+        -- right. right. right. exists ev. auto.
+        -- destruct (Icover r Hr) as [H|[H|[H|[ev0 [H _]]]]]; [left|right; left|right; right; left|try rewrite Q in H; discriminate].
+           ++ apply thread_holds_frame with (s := s); [reflexivity|exact H].
+           ++ exact H.
+           ++ cbn [s_slots set_seq set_slots]. rewrite slot_set_other by exact Ne. exact H.
+      * intros ev0 t H. left. destruct (Iqrev ev0 t H) as [H1|H1]; [lia|try rewrite Q in H1; discriminate].
+    + (* invalid, definite failure: commit *)
+      constructor; cbn [s_committed s_dealt s_slots s_seq s_queue s_retry s_threads set_committed set_slots];
+        unfold qrevs; cbn [s_queue set_committed set_slots]; rewrite ?Q, ?Hrev; try assumption; try lia.
+      * intros t th r G P. destruct (Ithr t th r G P) as [? [? [? ?]]]. specialize (NotSlot r H0).
+        split; [lia|]. split; [rewrite slot_set_other by exact NotSlot; assumption|]. split; [assumption|]. intros ev0 E. discriminate.
+      * intros r E. destruct (Iretry r E) as [? [? ?]]. specialize (NotSlot r H0).
+        split; [lia|]. split; [rewrite slot_set_other by exact NotSlot; assumption|]. intros ev0 E0. discriminate.
+      * intros r ev0 E. destruct (N.eq_dec r (s_committed s + 1)) as [->|Ne]; [rewrite slot_set_same in E; discriminate|].
+        rewrite slot_set_other in E by exact Ne. destruct (Islot r ev0 E). split; [assumption|lia].
+      * discriminate.
+      * intros r Hr. assert (Ne : r <> s_committed s + 1) by lia.
+        destruct (Icover r) as [H|[H|[H|[ev0 [H _]]]]]; [lia|left|right; left|right; right; left|try rewrite Q in H; discriminate].
+        -- apply thread_holds_frame with (s := s); [reflexivity|exact H].
+        -- exact H.
+        -- cbn [s_slots set_committed set_slots]. rewrite slot_set_other by exact Ne. exact H.
+      * intros ev0 t H. left. destruct (Iqrev ev0 t H) as [H1|H1]; [lia|try rewrite Q in H1; discriminate].
+      * intros t th cur G P. specialize (Icompact t th cur G P). lia.
+  - (* append *)
+    destruct (Iseq ev eq_refl) as [Hrev [Hle [Hsl [Hv Hu]]]].
+    constructor; cbn [s_committed s_dealt s_slots s_seq s_queue s_retry s_threads set_seq set_queue];
+      unfold qrevs; cbn [s_queue set_seq set_queue].
+    + assumption.
+    + exact Ithr.
+    + assumption.
+    + exact Iretry.
+    + assumption.
+    + exact Iseq.
+    + intros r Hr. destruct (Icover r Hr) as [H|[H|[H|[ev0 [H H']]]]]; [left|right; left|right; right; left|right; right; right].
+      * apply thread_holds_frame with (s := s); [reflexivity|exact H].
+      * exact H.
+      * exact H.
+      * rewrite Q in H. exists ev0. split; [exact H|exact H'].
+    + intros ev0 t H. apply in_app_or in H as [H|[H|[]]].
+      * left. destruct (Iqrev ev0 t H) as [H1|H1]; [lia|discriminate].
+      * injection H as <- <-. right. reflexivity.
+    + rewrite map_app. apply incr_app; [exact Iqincr|]. intros a Ha. apply in_map_iff in Ha as [[ev0 t] [<- Hin]].
+      simpl. destruct (Iqrev ev0 t Hin) as [H1|H1]; [lia|discriminate].
+    + intros ev0 t H. apply in_app_or in H as [H|[H|[]]]; [apply (Iqunc ev0 t H)|]. injection H as <- <-. auto.
+    + intros n E. destruct (Irhead n E) as [t [rest ->]]. exists t, (rest ++ [(ev, s_now s)]). reflexivity.
+    + assumption.
+  - (* commit the held revision *)
+    destruct (Iseq ev eq_refl) as [Hrev [Hle [Hsl [Hv Hu]]]].
+    constructor; cbn [s_committed s_dealt s_slots s_seq s_queue s_retry s_threads set_seq set_committed];
+      unfold qrevs; cbn [s_queue set_seq set_committed]; rewrite ?Hrev.
+    + lia.
+    + intros t th r G P. destruct (Ithr t th r G P) as [? [? [? Hne]]]. specialize (Hne ev eq_refl).
+      split; [lia|]. split; [assumption|]. split; [assumption|]. intros ev0 E. discriminate.
+    + assumption.
+    + intros r E. destruct (Iretry r E) as [? [? Hne]]. specialize (Hne ev eq_refl).
+      split; [lia|]. split; [assumption|]. intros ev0 E0. discriminate.
+    + intros r ev0 E. destruct (Islot r ev0 E). split; [assumption|]. assert (r <> e_rev ev) by (intros ->; congruence). lia.
+    + discriminate.
+    + intros r Hr. destruct (Icover r) as [H|[H|[H|[ev0 [H H']]]]]; [lia|left|right; left|right; right; left|].
+      * apply thread_holds_frame with (s := s); [reflexivity|exact H].
+      * exact H.
+      * exact H.
+      * rewrite Q in H. simpl in H. injection H as <-. lia.
+    + intros ev0 t H. left. destruct (Iqrev ev0 t H) as [H1|H1]; [lia|]. injection H1 as <-. lia.
+    + assumption.
+    + assumption.
+    + assumption.
+    + intros t th cur G P. specialize (Icompact t th cur G P). lia.
+Qed.
+
+Ltac rnorm := cbn [s_committed s_dealt s_slots s_seq s_queue s_retry s_threads s_store
+                   set_retry set_dealt set_store set_slots set_queue set_rlast retry_rev retry_node];
+              unfold qrevs; cbn [s_queue set_retry set_dealt set_store set_slots set_queue set_rlast].
+
+Lemma incr_tail a l : incr (a :: l) -> incr l.
+Proof. intros [_ H]. exact H. Qed.
+
+Lemma located_frame2 s S r :
+  s_threads S = s_threads s -> s_slots S = s_slots s -> s_seq S = s_seq s ->
+  (retry_rev (s_retry s) = Some r -> retry_rev (s_retry S) = Some r) -> located s r -> located S r.
+Proof.
+  intros H1 H2 H3 H4 [H|[H|[H|H]]]; [left|right; left|right; right; left|right; right; right].
+  - apply thread_holds_frame with (s := s); assumption.
+  - apply H4. exact H.
+  - rewrite H2. exact H.
+  - rewrite H3. exact H.
+Qed.
+
+Ltac cov s0 R Icover := let r := fresh "r" in let Hr := fresh "Hr" in
+  intros r Hr; apply located_frame2 with (s := s0); try reflexivity; [rewrite R; discriminate|apply Icover; exact Hr].
+
+Lemma inv1_retry s e : Inv1 s -> Inv1 (step s (LRetry e)).
+Proof.
+  intros I. unfold step, step_gen, retry_step.
+  destruct (s_retry s) as [|node|node val|node val rev|node rev eo|node st] eqn:R.
+  - (* head / age test *)
+    destruct (s_queue s) as [|[node t] rest] eqn:Qu.
+    + destruct I. constructor; assumption.
+    + destruct (s_now s - t <? retry_interval).
+      * destruct I. constructor; assumption.
+      * destruct I as [Icd Ithr Iuniq Iretry Islot Iseq Icover Iqrev Iqincr Iqunc Irhead Icompact].
+        unfold qrevs in *. rewrite R in *. rewrite Qu in *. constructor; rnorm; rewrite ?Qu; try assumption.
+        -- intros r Hr. apply located_frame2 with (s := s); try reflexivity; [|apply Icover; exact Hr].
+           rewrite R. discriminate.
+        -- intros n E. injection E as <-. exists t, rest. reflexivity.
+  - (* getter *)
+    destruct I as [Icd Ithr Iuniq Iretry Islot Iseq Icover Iqrev Iqincr Iqunc Irhead Icompact]. rewrite R in *.
+    destruct e; try (constructor; rnorm; try assumption; [cov s R Icover|discriminate]).
+    destruct (latest (k_vers (s_store s (e_key node)))) as [[modrev val]|].
+    + destruct (is_empty val || negb (modrev =? e_rev node)).
+      * constructor; rnorm; try assumption. cov s R Icover.
+      * constructor; rnorm; try assumption. cov s R Icover.
+    + constructor; rnorm; try assumption. cov s R Icover.
+  - (* Deal *)
+    destruct I as [Icd Ithr Iuniq Iretry Islot Iseq Icover Iqrev Iqincr Iqunc Irhead Icompact]. rewrite R in *.
+    constructor; rnorm.
+    + lia.
+    + intros t th r G P. destruct (Ithr t th r G P) as [? [? [? ?]]]. split; [lia|]. split; [assumption|]. split; [|assumption].
+      intros E. injection E as <-. lia.
+    + assumption.
+    + intros r E. injection E as <-. split; [lia|]. split.
+      * destruct (s_slots s (s_dealt s + 1)) as [ev|] eqn:SL; [|reflexivity]. apply Islot in SL. lia.
+      * intros ev E. apply Iseq in E. lia.
+    + intros r ev E. destruct (Islot r ev E). split; [assumption|lia].
+    + intros ev E. destruct (Iseq ev E) as [? [? [? [? ?]]]]. split; [assumption|]. split; [lia|]. auto.
+    + intros r Hr. destruct (N.eq_dec r (s_dealt s + 1)) as [->|Ne].
+      * right. left. reflexivity.
+      * apply located_frame2 with (s := s); try reflexivity; [|apply Icover; lia]. rewrite R. discriminate.
+    + assumption.
+    + assumption.
+    + assumption.
+    + exact Irhead.
+    + assumption.
+  - (* the repair commit *)
+    destruct (commit (s_store s) (mk_batch (e_key node) (CIs (e_rev node, is_tomb val)) rev (is_tomb val) val) e) as [sto eo].
+    destruct I as [Icd Ithr Iuniq Iretry Islot Iseq Icover Iqrev Iqincr Iqunc Irhead Icompact]. rewrite R in *.
+    constructor; rnorm; try assumption.
+    intros r Hr. apply located_frame2 with (s := s); try reflexivity; [|apply Icover; exact Hr]. rewrite R. auto.
+  - (* dispatch *)
+    destruct I as [Icd Ithr Iuniq Iretry Islot Iseq Icover Iqrev Iqincr Iqunc Irhead Icompact]. rewrite R in *.
+    destruct (Iretry rev eq_refl) as [Hb [Hsl Hsq]].
+    constructor; rnorm.
+    + assumption.
+    + intros t th r G P. destruct (Ithr t th r G P) as [? [? [Hne ?]]]. split; [assumption|]. split; [|split; [discriminate|assumption]].
+      rewrite slot_set_other; [assumption|]. intros ->. apply Hne. reflexivity.
+    + assumption.
+    + discriminate.
+    + intros r ev E. destruct (N.eq_dec r rev) as [->|Ne].
+      * rewrite slot_set_same in E. injection E as <-. split; [reflexivity|assumption].
+      * rewrite slot_set_other in E by exact Ne. apply (Islot r ev E).
+    + intros ev E. destruct (Iseq ev E) as [? [? [? [? ?]]]]. split; [assumption|]. split; [assumption|]. split; [|auto].
+      rewrite slot_set_other; [assumption|]. apply Hsq. exact E.
+    + intros r Hr. destruct (N.eq_dec r rev) as [->|Ne].
+      * right. right. left. cbn [s_slots set_retry set_slots]. rewrite slot_set_same. discriminate.
+      * destruct (Icover r Hr) as [H|[H|[H|H]]]; [left|rewrite R in H; injection H as <-; congruence|right; right; left|right; right; right].
+        -- apply thread_holds_frame with (s := s); [reflexivity|exact H].
+        -- cbn [s_slots set_retry set_slots]. rewrite slot_set_other by exact Ne. exact H.
+        -- exact H.
+    + assumption.
+    + assumption.
+    + assumption.
+    + exact Irhead.
+    + assumption.
+  - (* pop *)
+    destruct I as [Icd Ithr Iuniq Iretry Islot Iseq Icover Iqrev Iqincr Iqunc Irhead Icompact]. rewrite R in *.
+    destruct (Irhead node eq_refl) as [t [rest Qu]]. rewrite Qu in *. cbn [pop_head].
+    constructor; rnorm; try assumption.
+    + intros r Hr. apply located_frame2 with (s := s); try reflexivity; [|apply Icover; exact Hr]. rewrite R. discriminate.
+    + intros ev t0 H. apply (Iqrev ev t0). right. exact H.
+    + unfold qrevs in Iqincr. rewrite Qu in Iqincr. simpl in Iqincr. apply Iqincr.
+    + intros ev t0 H. apply (Iqunc ev t0). right. exact H.
+    + discriminate.
+Qed.
+
+Lemma inv1_thread_step s t e : Inv1 s -> Inv1 (step s (LThread t e)).
+Proof.
+  intros I. unfold step, step_gen. destruct (get_thread t (s_threads s)) as [th|] eqn:G; [|exact I].
+  destruct (thread_step s (t_op th) (t_pc th) e) as [[s' p'] u] eqn:TS.
+  destruct (thread_step_frame _ _ _ _ _ _ _ TS) as [Hc [Hq [Hr [Hqu [_ [Ht _]]]]]].
+  apply inv1_thread with (s := s) (th := th); try assumption.
+  - cbn [t_pc]. apply (thread_step_effect _ _ _ _ _ _ _ TS).
+  - cbn [t_pc]. intros cur E. destruct (thread_step_compact _ _ _ _ _ _ _ cur TS E) as [H|H].
+    + destruct I. apply (i_compact0 t th cur G H).
+    + lia.
+Qed.
+
+Lemma inv1_step s l : Inv1 s -> Inv1 (step s l).
+Proof.
+  destruct l; [apply inv1_invoke|apply inv1_thread_step|apply inv1_seq|apply inv1_retry|apply inv1_tick].
+Qed.
+
+Lemma inv1_run s ls : Inv1 s -> Inv1 (run s ls).
+Proof.
+  revert s. induction ls as [|l ls IH]; intros s I; [exact I|]. simpl. apply IH. apply inv1_step. exact I.
 Qed.
